@@ -147,7 +147,12 @@ class Machine:
             fi = self.proj.find_method(self.m.cls, method)
             if fi is None:
                 raise AnalysisError(f"anchor vanished: {self.m.cls.key}.{method}")
-            self.graphs[method] = Builder(self.proj, inline_self_methods, self.depth).build(fi)
+            g = Builder(self.proj, inline_self_methods, self.depth).build(fi)
+            self.graphs[method] = g
+            # classify every node once, so the event-site inventory does not
+            # depend on which nodes the exploration happens to reach
+            for n in g.nodes:
+                self._templates(g, n)
         return self.graphs[method]
 
     # ------------------------------------------------------------ events
